@@ -338,6 +338,18 @@ func fillVal(r *hx.Run, v reflect.Value, depth int) {
 	}
 }
 
+// record types whose last field is their map, with the width of the entry count (var-uint below 0xFD: 1 byte; uint64: 8)
+var trailingMapCountWidth = map[string]int{"SigInfo": 8, "VoteInfo": 8, "MultiSignInfo": 8, "BindSignInfo": 1, "ConsensusSigns": 1, "FeeInfo": 1, "PeerPoolMap": 1}
+
+func lastMapField(v reflect.Value) reflect.Value {
+	for i := v.NumField() - 1; i >= 0; i-- {
+		if v.Field(i).Kind() == reflect.Map {
+			return v.Field(i)
+		}
+	}
+	panic("no map field")
+}
+
 type recordsFam struct {
 	sawPanic map[string]bool
 }
@@ -475,6 +487,101 @@ func (f *recordsFam) Gen(r *hx.Run) {
 				out := r.Do(fmt.Sprintf("dec %s %s keys=-", rt.name, hx.Hex(m)))
 				r.Hist("malformed." + outClass(out))
 				r.Nontrivial(fmt.Sprintf("%s-mut/%s/%d", rt.name, outClass(out), lenBucket(len(m))))
+			}
+		}
+		// maps: duplicate keys (the last one wins) and entries in a non-canonical order are accepted and canonicalised
+		if cw, ok := trailingMapCountWidth[rt.name]; ok {
+			for i := 0; i < r.Pick(12, 300); i++ {
+				newCase(rt.name + "-mapkeys")
+				mk1 := func(n int) (interface{}, []byte) {
+					for {
+						o := rt.mk()
+						fillVal(r, reflect.ValueOf(o).Elem(), 0)
+						mv := lastMapField(reflect.ValueOf(o).Elem())
+						for mv.Len() > n {
+							mv.SetMapIndex(mv.MapKeys()[0], reflect.Value{})
+						}
+						if rt.fix != nil {
+							rt.fix(r, o)
+						}
+						if mv = lastMapField(reflect.ValueOf(o).Elem()); mv.Len() == n {
+							return o, recSer(o)
+						}
+					}
+				}
+				o1, b1 := mk1(1)
+				// same object with an empty map: the bytes before the entries
+				mv := lastMapField(reflect.ValueOf(o1).Elem())
+				key := mv.MapKeys()[0]
+				val := mv.MapIndex(key)
+				mv.SetMapIndex(key, reflect.Value{})
+				b0 := recSer(o1)
+				e1 := b1[len(b0):]
+				// another value under the same key
+				var e2 []byte
+				if rt.name == "PeerPoolMap" {
+					it := val.Interface().(*node_manager.PeerPoolItem)
+					it2 := *it
+					it2.Index ^= 0x55
+					it2.Status ^= 1
+					mv.SetMapIndex(key, reflect.ValueOf(&it2))
+				} else {
+					v2 := reflect.New(val.Type()).Elem()
+					fillVal(r, v2, 1)
+					mv.SetMapIndex(key, v2)
+				}
+				e2 = recSer(o1)[len(b0):]
+				// and an entry under another key
+				_, bo := mk1(1)
+				_ = bo
+				head := append([]byte{}, b0[:len(b0)-cw]...)
+				cnt := func(n int) []byte {
+					c := make([]byte, cw)
+					c[0] = byte(n)
+					return c
+				}
+				dup := append(append(append(append([]byte{}, head...), cnt(2)...), e1...), e2...)
+				out := r.Do(fmt.Sprintf("dec %s %s keys=-", rt.name, hx.Hex(dup)))
+				r.Nontrivial(fmt.Sprintf("%s-dupkey/%s", rt.name, outClass(out)))
+				dup3 := append(append(append(append(append([]byte{}, head...), cnt(3)...), e2...), e1...), e2...)
+				r.Do(fmt.Sprintf("dec %s %s keys=-", rt.name, hx.Hex(dup3)))
+			}
+			// entries of a valid map in reverse (ascending) order
+			for i := 0; i < r.Pick(8, 200); i++ {
+				newCase(rt.name + "-maporder")
+				o := rt.mk()
+				fillVal(r, reflect.ValueOf(o).Elem(), 0)
+				if rt.fix != nil {
+					rt.fix(r, o)
+				}
+				mv := lastMapField(reflect.ValueOf(o).Elem())
+				if mv.Len() < 2 || mv.Len() > 250 {
+					continue
+				}
+				full := recSer(o)
+				// serialize the entries one by one: object with only that entry
+				keys := mv.MapKeys()
+				sort.Slice(keys, func(a, b int) bool { return keyGreater(keys[a], keys[b]) })
+				vals := make([]reflect.Value, len(keys))
+				for j, k := range keys {
+					vals[j] = mv.MapIndex(k)
+				}
+				for _, k := range keys {
+					mv.SetMapIndex(k, reflect.Value{})
+				}
+				b0 := recSer(o)
+				var ents [][]byte
+				for j, k := range keys {
+					mv.SetMapIndex(k, vals[j])
+					ents = append(ents, recSer(o)[len(b0):])
+					mv.SetMapIndex(k, reflect.Value{})
+				}
+				rev := append([]byte{}, full[:len(b0)]...)
+				for j := len(ents) - 1; j >= 0; j-- {
+					rev = append(rev, ents[j]...)
+				}
+				out := r.Do(fmt.Sprintf("dec %s %s keys=-", rt.name, hx.Hex(rev)))
+				r.Nontrivial(fmt.Sprintf("%s-revorder/%s/%d", rt.name, outClass(out), len(keys)))
 			}
 		}
 		// every offset of a (short) valid encoding replaced by a huge declared count, the rest of the body kept
